@@ -65,16 +65,20 @@ def strategy(tier):
 
 
 def _hang_site(exc):
-    """the function that does not terminate: deepest frame inside vsg/vhdlFile/classify (else deepest vsg frame) when the guard fired"""
-    import traceback
-
-    tb = traceback.extract_tb(exc.__traceback__) if exc is not None else []
-    fr = [x for x in tb if "/vsg/" in x.filename and "/harness/" not in x.filename]
-    cl = [x for x in fr if "/vsg/vhdlFile/classify/" in x.filename and not x.filename.endswith("classify/utils.py")]
-    pick = (cl or fr or [None])[-1]
-    if pick is None:
+    """the function that does not terminate: the deepest vsg frame present in both stack samples (taken half the guard apart)"""
+    stacks = getattr(exc, "stacks", ()) if exc is not None else ()
+    if len(stacks) != 2:
         return "?"
-    return "%s:%s" % (os.path.relpath(pick.filename, vsgapi.REPO), pick.name)
+    a, b = stacks
+    n = 0
+    while n < len(a) and n < len(b) and a[n] == b[n]:
+        n += 1
+    common = [x for x in a[:n] if "/vsg/" in x[0] and "/harness/" not in x[0]]
+    if not common:
+        return "?"
+    cl = [x for x in common if "/vsg/vhdlFile/classify/" in x[0] and not x[0].endswith("classify/utils.py")]
+    fn, name = (cl or common)[-1]
+    return "%s:%s" % (os.path.relpath(fn, vsgapi.REPO), name)
 
 
 def on_timeout(case, tier, exc=None):
